@@ -155,6 +155,13 @@ def run(ctx):
     # (system::load_rules skips the update when the new list equals the current one)
     from . import rules_C11
     rules_C11.eq_coverage(ctx, f, "system", "core::system::rule::Rule", cfg, R="C09.rules-current/equality")
+    # ... and the system rule manager keeps its snapshot in step with what it enforces (load / append), so that no rule that is no
+    # longer loaded keeps rejecting traffic
+    from . import rules_C10
+    mod = "core::system::rule_manager"
+    bodies = {p: b for p, b in f.bodies.items() if p.startswith(mod + "::") and b.kind == "Fn"}
+    rules_C10.raw_snapshot(ctx, f, "system", bodies, cfg)
+    rules_C10.append_snapshot(ctx, f, "system", bodies, cfg)
 
 
 def _cmps(p):
